@@ -383,17 +383,27 @@ func (gen *Generator) GenerateMacexpand(args []Sexp) error {
 
 func (gen *Generator) GenerateShortCircuit(or bool, args []Sexp) error {
 	size := len(args)
+	if size == 0 {
+		if or {
+			return fmt.Errorf("or requires at least one argument")
+		}
+		return fmt.Errorf("and requires at least one argument")
+	}
 
 	subgen := gen.NewSubGenerator()
 	subgen.scopes = gen.scopes
 	subgen.Tail = gen.Tail
 	subgen.funcname = gen.funcname
-	subgen.Generate(args[size-1])
+	if err := subgen.Generate(args[size-1]); err != nil {
+		return err
+	}
 	instructions := subgen.instructions
 
 	for i := size - 2; i >= 0; i-- {
 		subgen = gen.NewSubGenerator()
-		subgen.Generate(args[i])
+		if err := subgen.Generate(args[i]); err != nil {
+			return err
+		}
 		subgen.AddInstruction(DupInstr(0))
 		subgen.AddInstruction(BranchInstr{or, len(instructions) + 2})
 		subgen.AddInstruction(PopInstr(0))
